@@ -325,9 +325,11 @@ class Ctx(object):
     def v(self, prop, key, msg):
         self.viol.append({"property": prop, "key": key, "msg": msg})
 
-    def call(self, label, fn, operands=(), mutates=(), meta=None, meta_src=None):
+    def call(self, label, fn, operands=(), mutates=(), meta=None, meta_src=None, containers=()):
         """run fn(); operands: objects that must be left unchanged unless listed (by
-        identity) in mutates.  Returns (result, exception)."""
+        identity) in mutates; containers: the lists / dicts the operands were passed in, which
+        must hold the very same objects afterwards.  Returns (result, exception)."""
+        held = [(c, list(c.items()) if isinstance(c, dict) else list(c)) for c in containers if isinstance(c, (list, dict))]
         snaps = []
         for o in operands:
             if any(o is m for m in mutates):
@@ -349,6 +351,14 @@ class Ctx(object):
             if after != s:
                 self.v('C15', 'operand-mutated:' + label.split('(')[0],
                        "%s modified an operand: %s" % (label, describe_diff(s, after)))
+        for c, items in held:
+            COUNTS['imm_container_checks'] += 1
+            now = list(c.items()) if isinstance(c, dict) else list(c)
+            same = len(now) == len(items) and all((x[0] == y[0] and x[1] is y[1]) if isinstance(c, dict) else (x is y) for x, y in zip(now, items))
+            if not same:
+                self.v('C15', 'input-container-modified:' + label.split('(')[0],
+                       "%s replaced the arrays in the %s it was given: it now holds %s" % (
+                           label, type(c).__name__, [("%s%r" % (type(x).__name__, getattr(x, 'shape', None))) for x in (c.values() if isinstance(c, dict) else c)][:6]))
         if exc is None:
             check_result(res, label)
             if meta is not None and isinstance(res, (DimArray,)):
